@@ -1,5 +1,5 @@
 (* C02: proofs about the timed registry (ModelTime.v). *)
-From CJ Require Import Common.Base C02.Model C02.ModelTime.
+From CJ Require Import Common.Base Common.BaseProofs C02.Model C02.Spec C02.Proofs C02.ModelTime.
 
 Lemma set_valid_true_id : forall r, r_valid r = true -> set_valid true r = r.
 Proof. intros [n v t p] H; simpl in H; subst; reflexivity. Qed.
@@ -60,3 +60,89 @@ Qed.
 (* a duplicate leaves every record - in particular its age - as it was *)
 Lemma dup_keeps_records : forall s op, is_dup s op = true -> snd (tstep s op) = snd s.
 Proof. intros s op H; rewrite (dup_is_noop s op H); reflexivity. Qed.
+
+(* ------------------------------------------------------------------ every tracked entry has its record *)
+
+(* every tracked entry has its timeout record *)
+Definition has_rec (s : tstate) : Prop :=
+  forall e, In e (fst s) -> exists a u, In (e_ph e, e_id e, a, u) (snd s).
+
+Lemma rec_key_eqb_true ph id p i a u : rec_key_eqb ph id (p, i, a, u) = true <-> p = ph /\ i = id.
+Proof. unfold rec_key_eqb. rewrite andb_true_iff, N.eqb_eq, bytes_eqb_eq. tauto. Qed.
+
+Lemma in_map_mark ph id n e st : In e (map (mark_valid ph id n) st) -> exists e0, In e0 st /\ e_ph e0 = e_ph e /\ e_id e0 = e_id e.
+Proof.
+  intro H. apply in_map_iff in H as (e0 & <- & Hin). exists e0. split; [exact Hin|].
+  unfold mark_valid. destruct (key_eqb ph id e0 && (r_name (e_reg e0) =? n)); simpl; auto.
+Qed.
+
+Lemma in_track ph id r e st : In e (track st ph id r) -> In e st \/ (tracked st ph id = false /\ e_ph e = ph /\ e_id e = id).
+Proof.
+  unfold track. destruct (tracked st ph id) eqn:T; intro H; [left; exact H|].
+  apply in_app_or in H as [H|[<-|[]]]; [left; exact H|right; simpl; auto].
+Qed.
+
+Lemma has_rec_track_like :
+  forall st ts ph id r e,
+    has_rec (st, ts) -> In e (track st ph id r) ->
+    exists a u, In (e_ph e, e_id e, a, u) (if tracked st ph id then ts else ts ++ [(ph, id, 0, false)]).
+Proof.
+  intros st ts ph id r e I H. apply in_track in H as [H|(T & H1 & H2)].
+  - destruct (I e H) as (a & u & Hin). exists a, u. destruct (tracked st ph id); [exact Hin|apply in_or_app; left; exact Hin].
+  - rewrite T, H1, H2. exists 0, false. apply in_or_app; right; left; reflexivity.
+Qed.
+
+Lemma expire_fold_in :
+  forall l st e, In e (fold_left step (map rec_op l) st) ->
+    In e st /\ forall a u, ~ In (e_ph e, e_id e, a, u) l.
+Proof.
+  induction l as [|t l IH]; intros st e H; simpl in *.
+  - split; [exact H|intros a u []].
+  - destruct t as [[[p i] a0] u0]. simpl in H. apply IH in H as [H1 H2].
+    unfold expire in H1. apply filter_In in H1 as [H1 H3].
+    split; [exact H1|]. intros a u [E|E]; [|exact (H2 a u E)].
+    inversion E; subst. apply negb_true_iff in H3. apply key_eqb_false in H3. apply H3; split; reflexivity.
+Qed.
+
+Lemma has_rec_step : forall s op, has_rec s -> has_rec (tstep s op).
+Proof.
+  intros [st ts] op I. destruct op as [o|ph id|d|].
+  - destruct o as [ph id r|ph id r|ph id| |]; unfold has_rec, tstep; simpl; intros e H.
+    + eapply has_rec_track_like; eauto.
+    + unfold validate in H. apply in_map_mark in H as (e0 & H0 & <- & <-).
+      eapply has_rec_track_like; eauto.
+    + unfold expire in H. apply filter_In in H as [H1 H2]. destruct (I e H1) as (a & u & Hin).
+      exists a, u. apply filter_In. split; [exact Hin|].
+      apply negb_true_iff in H2. apply key_eqb_false in H2.
+      apply negb_true_iff. destruct (rec_key_eqb ph id (e_ph e, e_id e, a, u)) eqn:K; [|reflexivity].
+      apply rec_key_eqb_true in K. tauto.
+    + exact (I e H).
+    + destruct H.
+  - unfold has_rec, tstep; simpl; intros e H. destruct (I e H) as (a & u & Hin).
+    destruct (rec_key_eqb ph id (e_ph e, e_id e, a, u)) eqn:K.
+    + exists a, true. apply in_map_iff. exists (e_ph e, e_id e, a, u). split; [|exact Hin]. rewrite K. reflexivity.
+    + exists a, u. apply in_map_iff. exists (e_ph e, e_id e, a, u). split; [|exact Hin]. rewrite K. reflexivity.
+  - unfold has_rec, tstep; simpl; intros e H. destruct (I e H) as (a & u & Hin).
+    exists (a + d), u. apply in_map_iff. exists (e_ph e, e_id e, a, u). split; [reflexivity|exact Hin].
+  - unfold has_rec, tstep; simpl; intros e H. apply expire_fold_in in H as [H1 H2].
+    destruct (I e H1) as (a & u & Hin). exists a, u. apply filter_In. split; [exact Hin|].
+    apply negb_true_iff. destruct (rec_expired (e_ph e, e_id e, a, u)) eqn:X; [|reflexivity].
+    exfalso. apply (H2 a u). apply filter_In. split; assumption.
+Qed.
+
+Lemma has_rec_run : forall ops s, has_rec s -> has_rec (trun_from s ops).
+Proof. induction ops as [|op rest IH]; intros s I; simpl; [exact I|]. apply IH. apply has_rec_step. exact I. Qed.
+
+(* whatever is tracked right after a sweep - in particular whatever a flight can be matched to - has a timeout
+   record that is within its lifetime: age (changed by the passing of time alone since the record was created at
+   the ORIGINAL registration) <= 10 min if never used, <= 6 h if used *)
+Lemma tracked_after_sweep_within :
+  forall ops e, In e (fst (trun (ops ++ [TSweep]))) ->
+    exists a u, In (e_ph e, e_id e, a, u) (snd (trun (ops ++ [TSweep]))) /\ rec_within (e_ph e, e_id e, a, u) = true.
+Proof.
+  intros ops e H.
+  assert (I : has_rec (trun (ops ++ [TSweep]))) by (apply has_rec_run; intros x []).
+  destruct (I e H) as (a & u & Hin). exists a, u. split; [exact Hin|].
+  unfold trun, trun_from in Hin. rewrite fold_left_app in Hin. simpl in Hin.
+  eapply sweep_within. exact Hin.
+Qed.
